@@ -22,6 +22,7 @@ from harness import common as cm
 from harness import c02
 
 PID = 'C04'
+BOUNDS = {'quick': dict(M='1..3', K='1..4 (IMEX <=3)', node_families=2, z='all reals with non-zero denominators', rk_classes=26), 'thorough': dict(M='1..5', K='1..7', node_families=6, cross_check_interval='z in [-1/4, 1/4]')}
 TOL = Fraction(1, 10**12)
 
 
